@@ -377,6 +377,19 @@ impl Ctx<'_> {
         *self.st.borrow_mut().entry(k).or_insert(0) += 1;
     }
     pub fn vio(&self, sig: &str, entry: &str, ov: &str, detail: String) {
+        // A defect in the recorder fails hundreds of thousands of cases; keep the first few
+        // witnesses per signature and only count the rest (Run::violation is O(#violations)).
+        {
+            static CAP: std::sync::Mutex<BTreeMap<String, u32>> = std::sync::Mutex::new(BTreeMap::new());
+            let mut cap = CAP.lock().unwrap();
+            let n = cap.entry(format!("{sig}:{}", self.crate_name)).or_insert(0);
+            *n += 1;
+            if *n > 12 {
+                drop(cap);
+                self.c("violations_beyond_first_12_per_signature(not filed)");
+                return;
+            }
+        }
         let mut cj = (self.case)();
         cj["crate"] = json!(self.crate_name);
         cj["entry"] = json!(entry);
